@@ -137,6 +137,11 @@ pub enum Op {
     PipeIn { o: u8, s: u8, body: Vec<Step>, id: OpId },
     Pipe { o: u8, s: u8, depth: u8, body: Vec<Step>, slot: u8, id: OpId },
     Consume { slot: u8, k: u8 },
+    /// hand the future in the slot to a task that has no thread of its own: whoever calls its waker polls it, right there
+    AwaitInline { slot: u8 },
+    /// the same for the output stream of a pipe; `drop_on_wake`: the first wake-up tears the task down instead (the stream is
+    /// dropped from inside the waker, as an executor does with a cancelled task)
+    ConsumeInline { slot: u8, drop_on_wake: bool },
     DropPipe { slot: u8 },
     /// a scheduling attempt under catch_unwind (used on panicked objects)
     Attempt { o: u8, kind: AttemptKind, id: OpId },
@@ -322,6 +327,8 @@ pub fn fmt_op(op: &Op) -> String {
         Op::PipeIn { o, s, body, id } => format!("#{} pipe_in(o{}, s{}){{{}}}", id, o, s, fmt_steps(body)),
         Op::Pipe { o, s, depth, body, slot, id } => format!("#{} p{}=pipe(o{}, s{}, depth {}){{{}}}", id, slot, o, s, depth, fmt_steps(body)),
         Op::Consume { slot, k } => format!("consume p{} x{}", slot, k),
+        Op::AwaitInline { slot } => format!("await-inline f{}", slot),
+        Op::ConsumeInline { slot, drop_on_wake } => format!("consume-inline p{}{}", slot, if *drop_on_wake { " (dropped by its first wake-up)" } else { "" }),
         Op::DropPipe { slot } => format!("drop p{}", slot),
         Op::Attempt { o, kind, id } => format!("#{} attempt {:?}(o{})", id, kind, o),
     }
